@@ -21,13 +21,17 @@ type verifSem struct{ am.SemLogger }
 func (verifSem) AddPipeOut(addMut bool, sourceState string, targetMach string) {}
 func (verifSem) AddPipeIn(addMut bool, targetState string, sourceMach string)  {}
 
-// verifMach is the piped machine as seen by the pipe closures: only what they call is implemented.
+// verifMach is the piped machine as seen by the pipe closures: the state queries and the mutation
+// entry points of am.Api over three states (Foo, ErrFoo, Exception); everything else stays unimplemented.
 type verifMach struct {
 	am.Api
-	id     string
-	local  bool
-	mx     sync.Mutex
-	active bool
+	id    string
+	local bool
+	mx    sync.Mutex
+	// activity of Foo / ErrFoo / Exception
+	foo, errFoo, exc bool
+	// the state the pipe under test drives
+	tname string
 	// native only: forked deliveries wait for their gate
 	gates map[string]chan struct{}
 	done  map[string]chan struct{}
@@ -35,31 +39,101 @@ type verifMach struct {
 	log   []string
 }
 
-func (m *verifMach) SemLogger() am.SemLogger         { return verifSem{} }
-func (m *verifMach) Id() string                      { return m.id }
-func (m *verifMach) OnDispose(fn am.HandlerDispose)  {}
-func (m *verifMach) IsLocal() bool                   { return m.local }
-func (m *verifMach) Is(states am.S) bool             { m.mx.Lock(); defer m.mx.Unlock(); return m.active }
-func (m *verifMach) Not1(state string) bool          { m.mx.Lock(); defer m.mx.Unlock(); return !m.active }
+func (m *verifMach) get(name string) bool {
+	switch name {
+	case "Foo":
+		return m.foo
+	case "ErrFoo":
+		return m.errFoo
+	case am.StateException:
+		return m.exc
+	}
+	return false
+}
+
+func (m *verifMach) set(name string, v bool) {
+	switch name {
+	case "Foo":
+		m.foo = v
+	case "ErrFoo":
+		m.errFoo = v
+	case am.StateException:
+		m.exc = v
+	}
+}
+
+func (m *verifMach) all(states am.S) bool {
+	m.mx.Lock()
+	defer m.mx.Unlock()
+	for _, s := range states {
+		if !m.get(s) {
+			return false
+		}
+	}
+	return true
+}
+
+func (m *verifMach) some(states am.S) bool {
+	m.mx.Lock()
+	defer m.mx.Unlock()
+	for _, s := range states {
+		if m.get(s) {
+			return true
+		}
+	}
+	return false
+}
+
+func (m *verifMach) SemLogger() am.SemLogger        { return verifSem{} }
+func (m *verifMach) Id() string                     { return m.id }
+func (m *verifMach) OnDispose(fn am.HandlerDispose) {}
+func (m *verifMach) IsLocal() bool                  { return m.local }
+func (m *verifMach) Is(states am.S) bool            { return m.all(states) }
+func (m *verifMach) Is1(state string) bool          { return m.all(am.S{state}) }
+func (m *verifMach) Any1(states ...string) bool     { return m.some(states) }
+func (m *verifMach) Not(states am.S) bool           { return !m.some(states) }
+func (m *verifMach) Not1(state string) bool         { return !m.some(am.S{state}) }
+func (m *verifMach) IsErr() bool                    { return m.some(am.S{am.StateException}) }
+func (m *verifMach) Has(states am.S) bool {
+	for _, s := range states {
+		if s != "Foo" && s != "ErrFoo" && s != am.StateException {
+			return false
+		}
+	}
+	return true
+}
+func (m *verifMach) Has1(state string) bool { return m.Has(am.S{state}) }
 func (m *verifMach) EvAdd(e *am.Event, states am.S, args am.A) am.Result {
-	m.deliver(e, true)
+	m.deliver(e, true, states)
+	return am.Executed
+}
+func (m *verifMach) EvAdd1(e *am.Event, state string, args am.A) am.Result {
+	return m.EvAdd(e, am.S{state}, args)
+}
+func (m *verifMach) Add(states am.S, args am.A) am.Result    { return m.EvAdd(nil, states, args) }
+func (m *verifMach) Add1(state string, args am.A) am.Result  { return m.EvAdd(nil, am.S{state}, args) }
+func (m *verifMach) EvRemove(e *am.Event, states am.S, args am.A) am.Result {
+	m.deliver(e, false, states)
 	return am.Executed
 }
 func (m *verifMach) EvRemove1(e *am.Event, state string, args am.A) am.Result {
-	m.deliver(e, false)
-	return am.Executed
+	return m.EvRemove(e, am.S{state}, args)
 }
+func (m *verifMach) Remove(states am.S, args am.A) am.Result   { return m.EvRemove(nil, states, args) }
+func (m *verifMach) Remove1(state string, args am.A) am.Result { return m.EvRemove(nil, am.S{state}, args) }
 
-func (m *verifMach) apply(add bool) {
+func (m *verifMach) apply(add bool, states am.S) {
 	m.mx.Lock()
-	m.active = add
+	for _, s := range states {
+		m.set(s, add)
+	}
 	m.mx.Unlock()
 }
 
-func (m *verifMach) deliver(e *am.Event, add bool) {
-	if !vInTask() || vSymbolic() {
+func (m *verifMach) deliver(e *am.Event, add bool, states am.S) {
+	if e == nil || !vInTask() || vSymbolic() {
 		// synchronous call from the handler, or (engine) the forked call being run now
-		m.apply(add)
+		m.apply(add, states)
 		return
 	}
 	// native forked goroutine: wait until the harness opens this delivery's gate
@@ -68,7 +142,7 @@ func (m *verifMach) deliver(e *am.Event, add bool) {
 	d := m.done[e.TransitionId]
 	m.mx.Unlock()
 	<-g
-	m.apply(add)
+	m.apply(add, states)
 	close(d)
 }
 
@@ -114,11 +188,23 @@ func VerifC18Follow() {
 	flat := vParam("flat", 1) == 1
 	local := vParam("local", 1) == 1
 	k := vParam("toggles", 3)
-	src := &verifMach{id: "src", local: true}
-	tgt := &verifMach{id: "tgt", local: local, gates: map[string]chan struct{}{}, done: map[string]chan struct{}{}, rel: map[string]bool{}}
-	tgt.active = vBool() // the target may start out of sync
-	onAdd := add(flat, src, tgt, "Foo", "Foo")
-	onRemove := remove(flat, src, tgt, "Foo", "Foo")
+	// err=1: the piped target state is an Err-prefixed one (the Add pipe then also adds Exception), and the
+	// target may already be in Exception for an unrelated reason
+	tname := "Foo"
+	if vParam("err", 0) == 1 {
+		tname = "ErrFoo"
+	}
+	names := am.S{tname}
+	src := &verifMach{id: "src", local: true, tname: "Foo"}
+	tgt := &verifMach{id: "tgt", local: local, tname: tname, gates: map[string]chan struct{}{}, done: map[string]chan struct{}{}, rel: map[string]bool{}}
+	tgt.set(tname, vBool()) // the target may start out of sync
+	if tname == "ErrFoo" {
+		names = am.S{am.StateException, tname}
+		tgt.exc = vBool()
+		vAssume(tgt.exc || !tgt.errFoo) // an active Err state implies Exception (schema Require)
+	}
+	onAdd := add(flat, src, tgt, "Foo", tname)
+	onRemove := remove(flat, src, tgt, "Foo", tname)
 	srcActive := false
 	forked := 0
 	ctx := context.Background()
@@ -143,7 +229,7 @@ func VerifC18Follow() {
 		if vSymbolic() {
 			didFork = vPendingTasks() > before
 		} else {
-			skipped := flat && ((srcActive && tgt.Is(nil)) || (!srcActive && tgt.Not1("")))
+			skipped := flat && ((srcActive && tgt.Is(names)) || (!srcActive && tgt.Not1(tname)))
 			didFork = !(flat && local) && !skipped
 			if flat && !local {
 				// the skip test races with earlier forked deliveries; natively nothing was applied yet
@@ -167,5 +253,5 @@ func VerifC18Follow() {
 	}
 	vReach("follow")
 	vKnown("c18-forked-deliveries-reorder", !(flat && local))
-	vAssert("target-follows-source", tgt.Is(nil) == srcActive)
+	vAssert("target-follows-source", tgt.Is1(tname) == srcActive)
 }
